@@ -56,7 +56,6 @@ package utils
 //@   requires r != nil
 //@   assigns nothing
 //@   go-opaque NewResponseForwarder$1
-//@   go-opaque NewResponseForwarder$2
 //@   ensures r1 == nil && r0 != nil
 
 //@ func ListPendingRequests props(C07)
@@ -275,3 +274,51 @@ package utils
 //@   ensures[C01:ids-recorded] r1 == nil ==> r0 != nil && r0.BackendID == backendID && r0.RequestID == requestID && r0.Contents != nil && r0.Contents.Header != nil
 //@   ensures[C09:user-is-the-proxy-asserted-one] r1 == nil ==> r0.User == old(hget(proxyResp.Header, "X-Inverting-Proxy-User-ID"))
 //@   ensures[C07:nil-on-error] r1 != nil ==> r0 == nil
+
+// ---- the serialising goroutine of a response forwarder (C03, C05, C07) ----
+// The response taken from the writer's channel is serialised, as it is, into the pipe that feeds the upload; the only
+// field changed is TransferEncoding (forced to chunked so that the body is written incrementally, C05). A write error is
+// queued once on a channel of capacity one that only this goroutine closes.
+// rely: the streaming writer sends only non-nil responses (its WriteHeader contract builds the response it sends).
+//@ func NewResponseForwarder$2 props(C03,C05,C07)
+//@   requires r != nil && respChan != nil && proxyWriter != nil && rw != nil && writeErrChan != nil && !closed(writeErrChan) && chcap(writeErrChan) == 1 && chlen(writeErrChan) == 0
+//@   ghost got *http.Response = nil
+//@   ghost gotStatus int = 0
+//@   ghost gotHeader ref = nil
+//@   ghost gotTrailer ref = nil
+//@   ghost gotBody ref = nil
+//@   ghost writes int = 0
+//@   ghost queued int = 0
+//@   recv respChan
+//@     assert[C03:only-the-writers-channel] arg0 == respChan && got == nil
+//@     assume ret0 != nil
+//@     do got = ret0
+//@     do gotStatus = ret0.StatusCode
+//@     do gotHeader = ret0.Header
+//@     do gotTrailer = ret0.Trailer
+//@     do gotBody = ret0.Body
+//@   call (*http.Response).Write
+//@     assert[C03:received-response-serialised-as-it-is] writes == 0 && arg0 == got && arg0.StatusCode == gotStatus && arg0.Header == gotHeader && arg0.Trailer == gotTrailer && arg0.Body == gotBody
+//@     assert[C05:serialised-chunked-into-the-upload-pipe] arg1 == box(proxyWriter) && len(arg0.TransferEncoding) == 1 && arg0.TransferEncoding[0] == "chunked"
+//@     do writes = writes + 1
+//@   send writeErrChan
+//@     assert[C07:write-error-queued-once-without-blocking] queued == 0 && arg1 != nil && chlen(writeErrChan) < chcap(writeErrChan)
+//@     do queued = queued + 1
+//@   ensures[C03:at-most-one-response-per-forwarder] writes <= 1
+
+//@ func (*responseForwarder).Close props(C03,C07)
+//@   requires r != nil && r.ResponseWriteCloser != nil && r.postErrChan != nil && r.writeErrChan != nil
+//@   ghost closes int = 0
+//@   call (io.Closer).Close
+//@     assert[C03:forwarder-close-closes-the-writer-once] closes == 0 && arg0 == r.ResponseWriteCloser
+//@     do closes = closes + 1
+//@   ensures[C03:writer-closed-before-waiting-for-the-upload] closes == 1
+
+//@ func (*streamingResponseWriter).CloseWithError props(C03,C07)
+//@   requires w != nil && w.bodyReader != nil
+//@   assigns nothing
+//@   ghost n int = 0
+//@   call (*io.PipeReader).CloseWithError
+//@     assert[C03:abort-closes-the-body-pipe-with-the-error] n == 0 && arg0 == w.bodyReader && arg1 == err
+//@     do n = n + 1
+//@   ensures[C03:abort-once] n == 1
